@@ -61,12 +61,11 @@ def check_url(col, u):
         eq(col, "get_hostname==host-after-ensure_protocol", "ural.get_hostname.get_hostname", {"url": u}, r, ("ok", exp))
     except ValueError:
         eq(col, "get_hostname-none-when-unparseable", "ural.get_hostname.get_hostname", {"url": u}, r, ("ok", None))
-    # ---- normalized hostname
-    for na in (True, False):
-        for ir in (True, False):
-            inp = {"url": u, "normalize_amp": na, "infer_redirection": ir}
-            full = call(normalize_url, u, normalize_amp=na, infer_redirection=ir)
-            h = call(get_normalized_hostname, u, normalize_amp=na, infer_redirection=ir)
+    # ---- normalized hostname   (kw = {} : both sides called with their DEFAULT options)
+    for kw in [{"normalize_amp": na, "infer_redirection": ir} for na in (True, False) for ir in (True, False)] + [{}]:
+            inp = dict(kw, url=u) if kw else {"url": u, "options": "defaults"}
+            full = call(normalize_url, u, **kw)
+            h = call(get_normalized_hostname, u, **kw)
             if full[0] != "ok":
                 continue
             if h[0] != "ok":
@@ -78,13 +77,12 @@ def check_url(col, u):
             col.nontriv(("n", u))
             eq(col, "get_normalized_hostname==host(normalize_url)", "ural.normalize_url.get_normalized_hostname", inp, h[1], host_of_result(full[1]))
     # ---- fingerprinted hostname
-    for ss in (False, True):
-        # fingerprint_url always infers redirections (it has no option for it): only the default infer_redirection=True has a URL-level counterpart
-        for ir in (True,):
-            inp = {"url": u, "strip_suffix": ss, "infer_redirection": ir}
+    # fingerprint_url always infers redirections (it has no option for it): only the default infer_redirection=True has a URL-level counterpart
+    for kw, hkw in [({"strip_suffix": ss}, {"strip_suffix": ss, "infer_redirection": True}) for ss in (False, True)] + [({}, {})]:
+            inp = dict(hkw, url=u) if hkw else {"url": u, "options": "defaults"}
             src = u
-            full = call(fingerprint_url, src, strip_suffix=ss)
-            h = call(get_fingerprinted_hostname, u, strip_suffix=ss, infer_redirection=ir)
+            full = call(fingerprint_url, src, **kw)
+            h = call(get_fingerprinted_hostname, u, **hkw)
             if full[0] != "ok":
                 continue
             if h[0] != "ok":
@@ -95,8 +93,9 @@ def check_url(col, u):
             col.nontriv(("f", u))
             eq(col, "get_fingerprinted_hostname==host(fingerprint_url)", "ural.fingerprint_url.get_fingerprinted_hostname", inp, h[1], host_of_result(full[1]))
     # ---- stems
-    for sa in (False, True):
-        inp = {"url": u, "suffix_aware": sa}
+    for sa in (False, True, None):      # None: both sides with their default suffix_aware
+        skw = {} if sa is None else {"suffix_aware": sa}
+        inp = {"url": u, "suffix_aware": sa} if sa is not None else {"url": u, "options": "defaults"}
         for name, stems_fn, url_fn in (("canonicalized", canonicalized_lru_stems, canonicalize_url), ("normalized", normalized_lru_stems, normalize_url),
                                        ("fingerprinted", fingerprinted_lru_stems, fingerprint_url)):
             full = call(url_fn, u)
@@ -108,11 +107,11 @@ def check_url(col, u):
                 continue
             if not R.denote(R.clean(u))["host"]:
                 continue
-            st = call(stems_fn, u, suffix_aware=sa)
+            st = call(stems_fn, u, **skw)
             if name == "canonicalized":
-                exp = call(lru_stems, full[1], suffix_aware=sa)
+                exp = call(lru_stems, full[1], **skw)
             else:
-                exp = call(lru_stems, "http://" + full[1], suffix_aware=sa)
+                exp = call(lru_stems, "http://" + full[1], **skw)
                 if exp[0] == "ok":
                     exp = ("ok", [s for s in exp[1] if not s.startswith("s:")])
             if exp[0] != "ok":
@@ -122,18 +121,20 @@ def check_url(col, u):
 
 
 def check_host(col, h):
-    for na in (True, False):
-        full = call(normalize_url, "http://" + h + "/", normalize_amp=na, infer_redirection=False)
-        r = call(normalize_hostname, h, normalize_amp=na)
+    for kw in ({"normalize_amp": True}, {"normalize_amp": False}, {}):
+        full = call(normalize_url, "http://" + h + "/", infer_redirection=False, **kw)
+        r = call(normalize_hostname, h, **kw)
         if full[0] == "ok" and full[1] != "http://" + h + "/":
             col.nontriv(("nh", h))
-            eq(col, "normalize_hostname==host(normalize_url)", "ural.normalize_url.normalize_hostname", {"hostname": h, "normalize_amp": na}, r, ("ok", host_of_result(full[1])))
-    for ss in (False, True):
-        full = call(fingerprint_url, "http://" + h + "/", strip_suffix=ss)
-        r = call(fingerprint_hostname, h, strip_suffix=ss)
+            eq(col, "normalize_hostname==host(normalize_url)", "ural.normalize_url.normalize_hostname", dict(kw, hostname=h) if kw else {"hostname": h, "options": "defaults"},
+               r, ("ok", host_of_result(full[1])))
+    for kw in ({"strip_suffix": False}, {"strip_suffix": True}, {}):
+        full = call(fingerprint_url, "http://" + h + "/", **kw)
+        r = call(fingerprint_hostname, h, **kw)
         if full[0] == "ok" and full[1] != "http://" + h + "/":
             col.nontriv(("fh", h))
-            eq(col, "fingerprint_hostname==host(fingerprint_url)", "ural.fingerprint_url.fingerprint_hostname", {"hostname": h, "strip_suffix": ss}, r, ("ok", host_of_result(full[1])))
+            eq(col, "fingerprint_hostname==host(fingerprint_url)", "ural.fingerprint_url.fingerprint_hostname", dict(kw, hostname=h) if kw else {"hostname": h, "options": "defaults"},
+               r, ("ok", host_of_result(full[1])))
 
 
 def shard(job):
